@@ -17,6 +17,9 @@ type SQLLog struct {
 	FailBegin    bool
 	FailCommit   bool
 	FailRollback bool
+	// CommitErr / RollbackErr, when set, are returned instead of ErrCommit / ErrRollback (well-known sentinel errors)
+	CommitErr   error
+	RollbackErr error
 }
 
 func (l *SQLLog) add(e string) {
@@ -75,6 +78,9 @@ type sqlTx struct{ c *sqlConn }
 func (t *sqlTx) Commit() error {
 	t.c.log.add("commit")
 	if t.c.log.FailCommit {
+		if t.c.log.CommitErr != nil {
+			return t.c.log.CommitErr
+		}
 		return ErrCommit
 	}
 	return nil
@@ -82,6 +88,9 @@ func (t *sqlTx) Commit() error {
 func (t *sqlTx) Rollback() error {
 	t.c.log.add("rollback")
 	if t.c.log.FailRollback {
+		if t.c.log.RollbackErr != nil {
+			return t.c.log.RollbackErr
+		}
 		return ErrRollback
 	}
 	return nil
